@@ -19,7 +19,12 @@ Theorem c13_abandon_single : forall (s : st) (o : nat) (q : list nat) (c : cop) 
 Proof. exact ConnAbandon.c13_abandon_single. Qed.
 
 
+(* ... and for a search in flight (its routing entry is in the search map): the item channel is closed, the stream's next() ends with an error *)
+Theorem c13_abandon_search : forall (s : st) (o : nat) (q : list nat) (c : cop) (t : Z) (o' : nat) (c' : cop), fix9 (fx s) = true -> is_running s = true -> opq s = o :: q -> getop s o = Some c -> o_kind c = KAbandon t -> alookup t (rmap s) = None -> alookup t (smap s) = Some o' -> getop s o' = Some c' -> o' <> o -> let s' := step s DrvOp in In (o_mid c, KAbandon t) (wout s') /\ alookup t (rmap s') = None /\ alookup t (smap s') = None /\ ~ In t (inuse s') /\ ~ In (o_mid c) (inuse s') /\ (exists c'' : cop, getop s' o' = Some c'' /\ o_chan c'' = false).
+Proof. exact ConnAbandon.c13_abandon_search. Qed.
+
 Print Assumptions c13_below_wrap.
 Print Assumptions c13_all_schedules_partial.
 Print Assumptions c13_hypotheses_met.
 Print Assumptions c13_abandon_single.
+Print Assumptions c13_abandon_search.
